@@ -147,6 +147,26 @@ def run_case(c):
         el = float(np.abs(np.sort(lam_rep) - np.sort(lam)).max())
         if el > 1e-8 * max(np.abs(lam).max(), fscale):
             viol.append({"kind": "freq_mismatch", "msg": "frequencies^2/factor^2 differ from eigenvalues of the lattice sum by %.3e at %s" % (el, kind), "qkind": kind})
+    # thousands of q-points in one request (a dense band path or mesh; routines that work through the q-points in blocks only show their block
+    # handling there): sampled entries, among them the neighbours of the powers of two, against the lattice sum
+    big = {}
+    if len(pr) <= 4 and c["qseed"] % 2 == 0 and (c["regime"] == "short" or cutoff < 0.49 * Lmin):  # (general q: only where the model's range fits into the supercell)
+        nbig = int([4097, 5000, 8193][int(lrng.integers(3))] + lrng.integers(0, 3))
+        qbig = lrng.uniform(-0.5, 0.5, (nbig, 3))
+        ph.run_qpoints(qbig, with_dynamical_matrices=True)
+        qd_b = ph.get_qpoints_dict()
+        pick = sorted(set([0, 1, 1023, 1024, 2047, 2048, 4095, 4096, 4097, nbig - 2, nbig - 1] + lrng.integers(0, nbig, 6).tolist()))
+        for k_ in [k_ for k_ in pick if k_ < nbig]:
+            D = models.exact_dm(pr.cell, pr.scaled_positions, pr.symbols, pr.masses, cutoff, qbig[k_], r0=r0)
+            sD = max(np.abs(D).max(), fscale)
+            e = float(np.abs(np.array(qd_b["dynamical_matrices"][k_]) - D).max())
+            lam_b = np.sign(qd_b["frequencies"][k_]) * (np.array(qd_b["frequencies"][k_]) / factor) ** 2
+            e2 = float(np.abs(np.sort(lam_b) - np.sort(np.linalg.eigvalsh(D))).max())
+            if not np.isfinite(e) or e > TOL * max(sD, 1e-12) or e2 > 1e-8 * max(np.abs(np.linalg.eigvalsh(D)).max(), fscale):
+                viol.append({"kind": "dm_mismatch", "msg": "request of %d q-points: entry %d differs from the lattice sum (D by %.3e, eigenvalues by %.3e, max|D| %.3e)" % (nbig, k_, e, e2, sD),
+                             "path": "run_qpoints", "qkind": "large_batch", "full": c["full"], "dense": c["store_dense_svecs"], "regime": c["regime"]})
+                break
+        big = {"large_qpoint_batches": 1, "largest_batch": [nbig]}
     # the same crystal with the atoms of the primitive cell listed in another order (the public positions_to_reorder argument of Primitive /
     # get_primitive: its primitive-to-supercell map is then not ascending), the dynamical matrix built the way a direct user of the module builds it
     reorder = {}
@@ -182,7 +202,7 @@ def run_case(c):
     multi = ph.primitive.get_smallest_vectors()[1]
     maxmult = int(np.max(multi[..., 0])) if multi.ndim == 3 else int(np.max(multi))
     return {"viol": viol[:6], "nontrivial": nontrivial, "key": key, "evals": len(qs) * 3,
-            "obs": {"q_" + k: v for k, v in nq.items()} | reorder | {"qlayout_" + qkind: 1, "fclayout_" + fckind: 1, "regime_" + c["regime"]: 1, "compact": int(not c["full"]), "sparse_svecs": int(not c["store_dense_svecs"]),
+            "obs": {"q_" + k: v for k, v in nq.items()} | reorder | big | {"qlayout_" + qkind: 1, "fclayout_" + fckind: 1, "regime_" + c["regime"]: 1, "compact": int(not c["full"]), "sparse_svecs": int(not c["store_dense_svecs"]),
                                                             "ws_boundary_multiplicity_gt1": int(maxmult > 1), "shells": [shells]},
             "maxerr": maxerr,
             "sample": {"crystal": c["crystal"], "smat": c["smat"], "pmat": pm, "cutoff": cutoff, "Lmin": Lmin, "shells": shells, "regime": c["regime"],
